@@ -6,7 +6,7 @@
 //! tree: which operator, which operand on which side, folded in which grouping.
 //!
 //! Plan: header `kind` (0 Sum2, 1 SumStream, 2 Product2, 3 ProductStream, 4 DifferenceStream,
-//! 5 QuotientStream), `n` (inputs: 2 for the binary ones, 1..=8 for the n-ary ones); ops
+//! 5 QuotientStream), `n` (inputs: 2 for the binary ones, 1..=12, 16 or 33 for the n-ary ones); ops
 //!   IN i cat t w   input i now returns: cat 0 Ok(None), 1..=3 Err(code), 4 Ok(Some(Datum(t, W(w))))
 //!   G              read the combinator twice, compare with the model (and, for the two-input sum
 //!                  and product, with the n-ary stream over the same two inputs)
@@ -94,7 +94,13 @@ fn nary_sum(ins: &[DynW]) -> Box<dyn Getter<W, E>> {
         5 => Box::new(SumStream::new([g(0), g(1), g(2), g(3), g(4)])),
         6 => Box::new(SumStream::new([g(0), g(1), g(2), g(3), g(4), g(5)])),
         7 => Box::new(SumStream::new([g(0), g(1), g(2), g(3), g(4), g(5), g(6)])),
-        _ => Box::new(SumStream::new([g(0), g(1), g(2), g(3), g(4), g(5), g(6), g(7)])),
+        8 => Box::new(SumStream::new([g(0), g(1), g(2), g(3), g(4), g(5), g(6), g(7)])),
+        9 => Box::new(SumStream::<W, 9, E>::new(std::array::from_fn(g))),
+        10 => Box::new(SumStream::<W, 10, E>::new(std::array::from_fn(g))),
+        11 => Box::new(SumStream::<W, 11, E>::new(std::array::from_fn(g))),
+        12 => Box::new(SumStream::<W, 12, E>::new(std::array::from_fn(g))),
+        16 => Box::new(SumStream::<W, 16, E>::new(std::array::from_fn(g))),
+        _ => Box::new(SumStream::<W, 33, E>::new(std::array::from_fn(g))),
     }
 }
 fn nary_product(ins: &[DynW]) -> Box<dyn Getter<W, E>> {
@@ -107,7 +113,13 @@ fn nary_product(ins: &[DynW]) -> Box<dyn Getter<W, E>> {
         5 => Box::new(ProductStream::new([g(0), g(1), g(2), g(3), g(4)])),
         6 => Box::new(ProductStream::new([g(0), g(1), g(2), g(3), g(4), g(5)])),
         7 => Box::new(ProductStream::new([g(0), g(1), g(2), g(3), g(4), g(5), g(6)])),
-        _ => Box::new(ProductStream::new([g(0), g(1), g(2), g(3), g(4), g(5), g(6), g(7)])),
+        8 => Box::new(ProductStream::new([g(0), g(1), g(2), g(3), g(4), g(5), g(6), g(7)])),
+        9 => Box::new(ProductStream::<W, 9, E>::new(std::array::from_fn(g))),
+        10 => Box::new(ProductStream::<W, 10, E>::new(std::array::from_fn(g))),
+        11 => Box::new(ProductStream::<W, 11, E>::new(std::array::from_fn(g))),
+        12 => Box::new(ProductStream::<W, 12, E>::new(std::array::from_fn(g))),
+        16 => Box::new(ProductStream::<W, 16, E>::new(std::array::from_fn(g))),
+        _ => Box::new(ProductStream::<W, 33, E>::new(std::array::from_fn(g))),
     }
 }
 
@@ -160,7 +172,15 @@ fn model(kind: i64, ins: &[O]) -> O {
 
 pub fn execute(plan: &Plan, ctx: &mut Ctx) {
     let kind = plan.get("kind").clamp(0, 5);
-    let n = if matches!(kind, 1 | 3) { plan.get("n").clamp(1, 8) as usize } else { 2 };
+    let n = if matches!(kind, 1 | 3) {
+        match plan.get("n").clamp(1, 33) as usize {
+            n @ 1..=12 => n,
+            13..=16 => 16,
+            _ => 33,
+        }
+    } else {
+        2
+    };
     let comp = KIND_NAMES[kind as usize];
     let handles: Vec<SensorHandle<W>> = (0..n).map(|_| SensorHandle::new()).collect();
     let ins: Vec<DynW> = handles.iter().map(|h| dyn_getter::<W, _>(h.sensor())).collect();
@@ -290,7 +310,7 @@ pub fn generate(prop: &str, _tier: Tier, rng: &mut Rng, seed: u64, run: u64, ind
         return plan;
     }
     let kind = rng.below(6) as i64;
-    let n = if matches!(kind, 1 | 3) { rng.range(1, 8) } else { 2 };
+    let n = if matches!(kind, 1 | 3) { *rng.pick(&[1, 2, 3, 4, 5, 6, 7, 8, 9, 10, 11, 12, 16, 33]) } else { 2 };
     plan.set("kind", kind);
     plan.set("n", n);
     let p_fault = *rng.pick(&[0.0, 0.1, 0.3]);
